@@ -280,13 +280,13 @@ def observe_text(text_bytes: bytes, src: str, case: Any, scratch: pathlib.Path, 
             stats["accepted"] += 1
 
 
-def observe_tables(max_len: int, obs: List[Dict[str, Any]]) -> None:
+def observe_tables(max_len: int, obs: List[Dict[str, Any]], only: Optional[List[str]] = None) -> None:
     import asttokens
     from aas_core_codegen import common
 
-    for n in range(0, max_len + 1):
-        for tup in itertools.product("x\n", repeat=n):
-            text = "".join(tup)
+    texts = only if only is not None else ["".join(tup) for n in range(0, max_len + 1) for tup in itertools.product("x\n", repeat=n)]
+    for text in texts:
+        if True:
             rec = base_record("table", "table", text)
             rec["txt"] = [1 if ch == "\n" else 0 for ch in text]
             try:
@@ -319,6 +319,8 @@ def main() -> None:
         observe_text(raw["text"].encode("utf-8"), "replay", raw.get("case"), scratch / "r", bool(raw.get("smoke")), obs, stats)
     if job.get("table_max") is not None:
         observe_tables(int(job["table_max"]), obs)
+    if job.get("table_texts"):
+        observe_tables(0, obs, only=list(job["table_texts"]))
     json.dump({"obs": obs, "stats": stats, "texts": TEXTS}, open(out_path, "w"))
 
 
